@@ -17,7 +17,7 @@ E1 (domain enumeration on the real memory mappers, reference = models/vram.py):
 import os
 import logging
 
-from mc.core import Leg, Partial, CheckError, chunked
+from mc.core import Leg, Partial, CheckError
 from mc import core
 from mc import harness as H
 from models import vram
@@ -95,6 +95,9 @@ _add('egamono-s10', {'video': 'ega', 'monitor': 'mono'}, [b'SCREEN 10'], '640x35
 _add('ega64k-s9', {'video': 'ega', 'video_memory': 65536}, [b'SCREEN 9'], '640x350x16', False)
 
 CONFIG = {c[0]: c for c in CONFIGS}
+
+# quick tier: configs whose first page is poked at every address (one per layout kind)
+QUICK_POKE_ALL = ('cga-t80', 'cga-s1', 'hercules-s3', 'pcjr-s5', 'tandy-s6', 'ega-s7')
 
 QUICK_IDS = [
     'cga-t80', 'cga-t40', 'cga-s1', 'cga-s2', 'ega-s7', 'ega-s9', 'vga-s8', 'mda-t80',
@@ -439,7 +442,9 @@ def _poke_one(part, real, model, p, off, val, mask, via_basic, kn):
 
 
 def work_poke(shard):
-    cid, p = shard
+    """shard = (config id, page, lo, hi, do_classes): every content-backed offset in [lo, hi)
+    through the internal seam; if do_classes, the class addresses through BASIC."""
+    cid, p, lo, hi, do_classes = shard
     part = Partial()
     real, model = setup_real(cid, apage=p if p < 2 else None)
     if not real.full:
@@ -449,7 +454,7 @@ def work_poke(shard):
     planar = lay.kind == 'planar'
     # (1) every content-backed address once, internal seam
     cur_mask = None
-    for off in range(lay.page_size):
+    for off in range(lo, hi):
         if lay.locate(off) is None:
             continue
         mask = MASKS[(off // 3) % len(MASKS)] if planar else 0xf
@@ -462,10 +467,10 @@ def work_poke(shard):
             _check_all_pages(part, real, model, kn, '%s after poke at page %d offset %#x' % (cid, p, off),
                              {'cid': cid, 'page': p, 'off': off, 'val': val, 'mask': mask, 'basic': False},
                              'poke/%s/other-page-changed' % kn)
-    _check_all_pages(part, real, model, kn, '%s after poking all of page %d' % (cid, p),
-                     {'cid': cid, 'page': p}, 'poke/%s/other-page-changed' % kn)
+    _check_all_pages(part, real, model, kn, '%s after poking page %d offsets %#x..%#x' % (cid, p, lo, hi),
+                     {'cid': cid, 'page': p, 'off': lo}, 'poke/%s/other-page-changed' % kn)
     # (2) address classes x values (x masks) through BASIC
-    for off in class_offsets(lay):
+    for off in (class_offsets(lay) if do_classes else ()):
         if lay.locate(off) is None:
             continue
         for mask in (MASKS if planar else (0xf,)):
@@ -484,9 +489,9 @@ def work_poke(shard):
             if [bytearray(r) for r in rows] != model[vp]:
                 part.violation('poke/%s/get_pixels-differs' % kn,
                                '%s: Session.get_pixels() differs from reference after pokes' % cid,
-                               {'cid': cid, 'page': p})
+                               {'cid': cid, 'page': p, 'off': lo})
     part.traces = part.n
-    part.sample({'cid': cid, 'page': p})
+    part.sample({'cid': cid, 'page': p, 'range': [lo, hi]})
     return part
 
 
@@ -512,10 +517,6 @@ def block_cases(lay, pages):
                     continue
                 out.append((p, off, ln))
     return out
-
-
-def _model_peek_abs(lay, model, real_img, a, q):
-    return real_img(a)
 
 
 def work_block(shard):
@@ -578,10 +579,7 @@ def work_block(shard):
             ok, _ = core.guarded(part, 'block-write/' + kn, case, mem._set_memory_block, a0, bytearray(data))
             part.n += 1
             # reference: one byte at a time
-            for i in range(ln):
-                pp, o = divmod(a0 + i - lay.base, lay.page_size)
-                if pp in model:
-                    lay.poke(model[pp], o, data[i], mask)
+            lay.poke_block(model, a0, data, mask)
             good = True
             if real.full:
                 bad = [pp for pp in sorted(model) if not real.same_page(pp, model[pp])]
@@ -753,7 +751,13 @@ def legs(ctx):
             for p in plist:
                 peek_shards.append((cid, p))
             for p in (sorted(set([pages[0], pages[-1]])) if lay.kind == 'planar' or ctx.quick else plist):
-                poke_shards.append((cid, p))
+                if ctx.quick and not (p == pages[0] and cid in QUICK_POKE_ALL):
+                    # quick tier: class addresses only
+                    poke_shards.append((cid, p, 0, 0, True))
+                    continue
+                step = 4096
+                for lo in range(0, lay.page_size, step):
+                    poke_shards.append((cid, p, lo, min(lo + step, lay.page_size), lo == 0))
         cases = block_cases(lay, pages)
         if ctx.quick:
             # quick tier: every start class, lengths thinned to 1, row+1, to-bank-end+1, bank+7
@@ -780,8 +784,10 @@ def legs(ctx):
             bound='%d mode configs, %s reachable pages: every byte address of the page x every EGA read plane; '
                   'class addresses also through DEF SEG/PEEK' % (len(ids), 'first+last' if ctx.quick else 'all')),
         Leg('poke', poke_shards, work_poke, exhaustive=True,
-            bound='every content-backed address of the page poked once (value, EGA mask = f(address)); class '
-                  'addresses x {00,FF,55,A1} x 15 EGA masks through POKE/OUT; all pages compared'),
+            bound=('quick: every content-backed address of page 0 of %s' % (QUICK_POKE_ALL,) if ctx.quick else
+                   'every content-backed address of every reachable page (EGA: first+last page)') +
+                  ' poked once (value, EGA mask = f(address)); class addresses x {00,FF,55,A1} x 15 EGA masks '
+                  'through POKE/OUT on %s pages; all pages compared' % ('first+last' if ctx.quick else 'the same')),
         Leg('block', block_shards, work_block, exhaustive=True,
             bound='%d (start class, length class) blocks over %d mode configs, read on every EGA plane, '
                   'written under 3 EGA masks' % (nblock, len(ids))),
@@ -795,7 +801,8 @@ def replay(ctx, leg, case):
     if leg == 'peek':
         return work_peek((cid, case['page']))
     if leg == 'poke':
-        return work_poke((cid, case['page']))
+        off = case.get('off', 0)
+        return work_poke((cid, case['page'], off, off + 1, bool(case.get('basic', True))))
     if leg == 'block':
         return work_block((cid, [(case['page'], case['off'], case['len'])]))
     if leg == 'bsave':
